@@ -129,3 +129,9 @@ pub fn marathon(run: u64, n: usize) -> usize {
 pub fn is_marathon(run: u64) -> bool {
     run % 128 == 127
 }
+
+/// Endurance stratum: one run in 8209 (a prime, so that it falls on every combination of
+/// the other run-index strata) is a whole day at the keyboard.
+pub fn is_endurance(run: u64) -> bool {
+    run % 8209 == 8208
+}
